@@ -42,7 +42,8 @@ CHECKS = {
         "exploration",
         "history recording at the client boundary + sequential reference loop over scripted PettingZoo envs with self-identifying observations; seeded worker delays; per-scenario forked driver with watchdog",
         "Real AsyncPettingZooVecEnv / auto-reset wrapper driven with seeded action batches; every returned slice compared "
-        "with independently stepped reference copies under the statement's reset rule; completion-order diversity measured.",
+        "with independently stepped reference copies under the statement's reset rule (incl. sub-environments with a seeded "
+        "random stream of their own); completion-order diversity measured.",
         "Only the fork start method; scripted envs instead of real games; placeholder values for absent agents not judged.",
         "DESIGN.md#c12",
     ),
@@ -126,7 +127,8 @@ CHECKS = {
         "differential monitor around learn(): reference Bellman loss on a deep copy of the pre-step agent, leaf-wise soft-update relation via the module leaf walker, metamorphic twin with scrambled next observations of done transitions; target-policy smoothing noise replayed from the seeded generator; independently randomised online / target weights",
         "DQN/CQN (plain, double), Rainbow (1-step, n-step, PER, combined), DDPG, TD3, MADDPG, MATD3 over gamma, tau, policy "
         "delay, done patterns and consecutive steps, also directly after clone / each mutation kind / checkpoint load; "
-        "returned loss, every target parameter and the masking of terminal transitions are checked at every learn step.",
+        "returned loss, every target parameter and the masking of terminal transitions are checked at every learn step; every "
+        "third case learns all its steps from ONE experiences object, multi-agent batches carry per-agent done flags.",
         "Rainbow's loss form is delegated to C18; masking twin only on networks without batch norm; float tolerance 1e-4.",
         "DESIGN.md#c08",
     ),
@@ -136,7 +138,8 @@ CHECKS = {
         "history recording of the raw transition stream with unique ids and identifiable rewards + reference n-step fuser written from the statement; literal copy of train_off_policy's pairing code; exhaustive terminal placements for short streams; learn()-boundary wrapper on the real train_off_policy loop (RainbowDQN, n-step + 1-step buffers) run on an id-encoded scripted environment",
         "Every stored n-step row and its 1-step partner are decoded after every add (also after wrap-around of both buffers) "
         "and compared with the reference fuser; all 2^L terminal placements are enumerated for short streams (sub-space "
-        "exhaustive), plus seeded random streams with 1-4 parallel environments.",
+        "exhaustive), plus seeded random streams with 1-4 parallel environments; n-step rows gathered after a later draw; the real "
+        "train_off_policy with populations of 1-3 agents is observed at the learn() boundary.",
         "A window may be cut shorter when another environment ends inside it (the statement grants this); float32 tolerance.",
         "DESIGN.md#c10",
     ),
@@ -168,7 +171,8 @@ CHECKS = {
         "For MLP, SimBa, LSTM, CNN, ResNet the architecture graph under shrunken bounds is explored exhaustively by really "
         "calling the advertised methods on clones (sub-space exhaustive, states/edges reported); all modules and all "
         "networks (Q, Rainbow Q, continuous Q, value, deterministic and stochastic actor) are driven by seeded walks with "
-        "default bounds over vector/image/dict/tuple spaces; every edge is checked.",
+        "default bounds over vector/image/dict/tuple spaces; every edge is checked; 12 % of the walk edges are preceded by a "
+        "call the module rejects (wrong keyword / missing layer) on the same clone.",
         "Verdict on clone-and-mutate chains (pattern A, what HPO does); mutations repeated on one object without cloning are information only.",
         "DESIGN.md#c03",
     ),
@@ -198,8 +202,9 @@ CHECKS = {
         "exploration",
         "sys.monitoring PY_RETURN tap on RainbowDQN._dqn_loss (locals copied from the frame) + float64 per-atom C51 projection reference + metamorphic no-leak pairs; instance taps on the noisy networks' forward with a peer evaluation of the online network inside the target-network tap",
         "Atoms 2-51, several supports incl. non-representable v_max, rewards inside/outside/on atoms, done 0/1, gamma, n-step "
-        "1-3, combined targets: mass, mean, projection, non-negativity, row isolation, element-wise loss and returned "
-        "priorities are checked on every tapped loss evaluation.",
+        "1-3 (given to the constructor, assigned afterwards or set by an rl_hp mutation), combined targets: mass, mean, "
+        "projection, non-negativity, row isolation, element-wise loss and returned priorities are checked on every tapped "
+        "loss evaluation.",
         "Batch size equals agent.batch_size (implementation requirement); a lost local makes the run inconclusive.",
         "DESIGN.md#c18",
     ),
@@ -207,7 +212,7 @@ CHECKS = {
         True,
         "exploration",
         "postcondition wrapper on get_action accumulating the float64 Gram matrix from independently recomputed gradient features; (re)initialisation events observed on init_params/_reinit_bandit_grads; identity check of exp_layer",
-        "NeuralUCB and NeuralTS over context dims, arms, lambda, gamma, masks, sequences of 5-200 decisions interleaved with "
+        "NeuralUCB and NeuralTS over context dims, arms, lambda (0.01-10), gamma, masks, sequences of 5-200 decisions interleaved with "
         "learn steps, every mutation kind, clones and checkpoint round trips: sigma_inv @ G == I within a conditioned "
         "tolerance, symmetry, positive definiteness, non-negative bonuses, shape and layer identity after every decision.",
         "Float32 drift tolerance scaled with cond(G); features recomputed on a deep copy taken before the call.",
